@@ -945,7 +945,8 @@ def _radius_comp(rng, nx, ny, sym):
     from openaerostruct.geometry.radius_comp import RadiusComp
     s = _surf(rng, nx, ny, sym)
     return dict(factory=lambda: RadiusComp(surface=s), ints=[nx, ny], consts=[],
-                inputs=OrderedDict(mesh=s["mesh"], t_over_c=rng.uniform(0.06, 0.2, size=ny - 1)), outputs=["radius"])
+                inputs=OrderedDict(mesh=s["mesh"], t_over_c=rng.uniform(0.06, 0.2, size=ny - 1)), outputs=["radius"],
+                pattern=dict(op="RadiusPattern", ints=[nx, ny], of="radius", wrt="mesh", val=False))
 
 
 @spec("SparWithinWing")
